@@ -116,6 +116,14 @@ namespace sim
 		m_handler = std::move(handler);
 		if (m_expired)
 		{
+			// cancel() takes the timer out of the queue but keeps its expiry. If
+			// that is still in the future, go back to waiting for it
+			if (m_expiration_time > chrono::high_resolution_clock::now())
+			{
+				m_expired = false;
+				m_io_service->add_timer(this);
+				return;
+			}
 			fire(boost::system::error_code());
 			return;
 		}
